@@ -590,10 +590,20 @@ func (b Browse) ServeArchive(w http.ResponseWriter, r *http.Request, dirPath str
 		close(writeComplete)
 	}()
 
+	// The response has been started and the goroutine above owns the
+	// ResponseWriter until the pipe is closed: on an error the pipe is
+	// closed, the goroutine waited for, and 0 returned with the error
+	// (no second response may be written on top of the first).
+	fail := func(err error) (int, error) {
+		bufW.CloseWithError(err)
+		<-writeComplete
+		return 0, err
+	}
+
 	writer := archiveType.GetWriter()
 	err := writer.Create(bufW)
 	if err != nil {
-		return http.StatusInternalServerError, err
+		return fail(err)
 	}
 
 	err = fs.Walk(bc.Fs.Root, dirPath, func(path string, info os.FileInfo, err error) error {
@@ -607,6 +617,12 @@ func (b Browse) ServeArchive(w http.ResponseWriter, r *http.Request, dirPath str
 
 		if path == dirPath {
 			return nil // Skip the containing directory
+		}
+
+		if !info.Mode().IsRegular() && !info.IsDir() {
+			// links, sockets, pipes and devices are not archived
+			log.Printf("[WARNING] browse: not archiving %q: not a regular file", path)
+			return nil
 		}
 
 		var file io.ReadCloser
@@ -639,7 +655,8 @@ func (b Browse) ServeArchive(w http.ResponseWriter, r *http.Request, dirPath str
 	})
 
 	if err != nil {
-		return http.StatusInternalServerError, err
+		writer.Close()
+		return fail(err)
 	}
 
 	writer.Close()
